@@ -32,6 +32,7 @@ type instrReport struct {
 	Finalizers    []string          `json:"finalizers"`
 	Timers        []string          `json:"timers"`
 	TimeRewrite   []string          `json:"time_rewritten"`
+	UnsafeFiles   []string          `json:"unsafe_files"`
 	ClockWaits    int               `json:"clock_waits"`
 	CLI           []string          `json:"cli_redirected"`
 	CLIMain       bool              `json:"cli_main"`
